@@ -5,6 +5,7 @@ B (deciding tier, bounded): parse_operations vs an independent reference parser 
    depths / bundle limits / fragment settings (with refused operations and differing route paths).
 P: fragment of connector.issue - the bundle join/flush decision never mixes route or send paths, index/sender-context accounting.
 """
+from .util import distinct_keys
 import itertools
 import random
 
@@ -353,7 +354,7 @@ def bounded(tier, seed):
             elif got != ref:
                 viol('ops=%r depth/multiple/fragment=%r' % (ops, key), repr(got)[:300], 'same statuses, values and final tags as the synchronous run: %r' % (ref,))
     ev += route_mix(rng, tags, 4 if tier == 'quick' else 20, viol, distinct)
-    return dict(evaluations=ev, distinct_nontrivial=len(distinct),
+    return dict(evaluations=ev, distinct_nontrivial=len(distinct), distinct_keys=distinct_keys(distinct),
                 rule='(a) operation strings generated from a token grammar (tag / dotted tag / @c/i/a with hex, [i], [a-b], *n, +offset aligned and misaligned, (TYPE) casts, value lists '
                      'of matching / short / long length) x fragment on/off: parse_operations == reference parser (incl. which strings must be refused); (b) format_path -> '
                      'parse_path_elements round trip on generated segment lists; (c) seeded operation lists (valid, out-of-range, wrong type, multi-fragment reads) through '
